@@ -11,25 +11,25 @@ claimed = {
  "C03": ("framing rule: per-fetch postconditions SegJunk/SegFrame/SegTrunc (opaque predicates over the logical input) lifted to every delivered message by the HandleMessages invariant", "6 C03"),
  "C14": ("bit-field extraction: GetBitsAsUint64 and GetBitsAsInt64 verified in bit-vector mode (exact Go shift/mask/wrap semantics) against the bitwise statement of the property; the loop is covered by an inductive invariant with a complete 65-way case split on the iteration number; 1016 bridge lemmas tie the bitwise contract to the byte-arithmetic reading used by all int-mode callers", "6 C14"),
  "C04": ("MSM4/MSM7 functional decoding: GetMSMHeader gives every header field, the satellite and signal lists and the cell matrix as functions of the frame bits (cnthi rank function over the masks, with lemmas proved by induction); both GetSatelliteCells give every satellite-cell field as bits/sbits at its field-major position; both GetSignalCells give, under loop invariants over the mask walk, every cell of the matrix as the cell the mask puts there (Row4OK/Row7OK: rank, signal id, attached satellite cell, every field as bits/sbits at position start + width x N + width x rank, signed fields two's complement) and accept every message long enough for the cells the mask announces; both GetMessage compose these into statements over the frame alone, none of which mentions the frame length (padding independence) and accept every well-formed message; all for every mask shape, field value and padding length (no bound)", "6 C04"),
- "C05": ("1005/1006: GetMessage postconditions give every field as the bit field of the property's layout (signed fields as two's complement over the full 38-bit range) and the exact acceptance condition (length and type); the display clause is an argument-flow obligation at the Sprintf call: the value reaching each %.4f verb is within 1e-6 of integer x 0.0001 in the floating-point rounding model", "6 C05"),
- "C18": ("recent-message queue: representation invariant (keys form the interval of the last n sequence numbers, n <= capacity) and a ghost history of all additions; NewCircularQueue establishes it, Add preserves it and states the whole new view (count min(n+1,N), new message at the new sequence number, every other held message unchanged), GetMessages returns exactly the held messages in sequence order; unbounded in capacity and history; the concurrent clause is a whole-program lock-discipline obligation (guarded fields only under the RWMutex, not touched outside the package) plus the assumption that RWMutex gives mutual exclusion", "6 C18"),
- "C19": ("proxy: both relay loops are proved against prophecy connections (any chunking, errors anywhere, data together with an error) and ghost write logs - at every iteration the bytes written to the peer are exactly the bytes read, in order, independent of content; the client-side loop also sends the same bytes to the parser channel, and the frame obligations show that recording a chunk for the report and parsing cannot change it before it is forwarded; the status page is covered by argument-flow obligations at the final Sprintf: the two hex dumps and the message list reach the constant template free of '<' and '>' (Sanitise contract over assumed strings.Replace, loop invariant over the message list), and by the lock-held structural obligation on the report feed's buffers.  TCP/TLS behaviour, the HTTP layer of statusreporter, liveness when the parser stalls, and behaviour after a failed Write are not decided", "6 C19"),
+ "C05": ("1005/1006: GetMessage postconditions give every field as the bit field of the property's layout (signed fields as two's complement over the full 38-bit range) and the exact acceptance condition (length and type); the display clause is an argument-flow obligation at the Sprintf call: the value reaching each %.4f verb is within 1e-6 of integer x 0.0001 in the floating-point rounding model; the decoders' safety obligations are part of the check (rejection with an error, not a panic, for every short input)", "6 C05"),
+ "C18": ("recent-message queue: representation invariant (keys form the interval of the last n sequence numbers, n <= capacity) and a ghost history of all additions; NewCircularQueue establishes it, Add preserves it and states the whole new view (count min(n+1,N), new message at the new sequence number, every other held message unchanged), GetMessages returns exactly the held messages in sequence order; unbounded in capacity and history; the concurrent clause is a whole-program lock-discipline obligation (guarded fields only under the RWMutex, not touched outside the package) plus the assumption that RWMutex gives mutual exclusion; every field of the queue, present or added later, is subject to the lock-held obligation (reads under RLock/Lock, writes under Lock)", "6 C18"),
+ "C19": ("proxy: both relay loops are proved against prophecy connections (any chunking, errors anywhere, data together with an error) and ghost write logs - at every iteration the bytes written to the peer are exactly the bytes read, in order, independent of content; the client-side loop also sends the same bytes to the parser channel, and the frame obligations show that recording a chunk for the report and parsing cannot change it before it is forwarded; the status page is covered by argument-flow obligations at the final Sprintf: the two hex dumps and the message list reach the constant template free of '<' and '>' (Sanitise contract over assumed strings.Replace, loop invariant over the message list), and by the lock-held structural obligation on the report feed's buffers.  TCP/TLS behaviour, the HTTP layer of statusreporter, liveness when the parser stalls, and behaviour after a failed Write are not decided; the proxy's parser goroutine is part of the cone: its safety obligations (no panic on any input) and its lossless-consumption clauses are decided here too", "6 C19"),
  "C20": ("classification: package initialisation establishes the two MSM maps exactly (global-init obligations) and nothing else writes them (whole-program structural obligation); MSM4/MSM7/MSM, GetConstellation, getMSMType, the four decoders' type rejection, GetMessage's timestamp guard, Analyse's dispatch and GetTitleAndComment's non-empty title are postconditions over a symbolic message type, i.e. for all integers", "6 C20"),
  "C06": ("UTC conversion across rollovers: one inductive step over ghost truth (start time T, per constellation the true time u of the last accepted observation and a seen flag): New establishes the relation between the handler's week starts / previous timestamps and the truth, and GetMessage preserves it while reporting exactly the true time and week start for every timestamp that encodes a time satisfying the property's hypotheses; illegal timestamps give an error and leave the state untouched; the other constellations' state is framed; all start times, zones (through In(UTC)), histories and interleavings are covered by the induction", "6 C06"),
- "C15": ("determinism / no hidden state over the whole framing-decoding-display cone (59 functions under contract): every function's frame is proved (only the locations in its modifies clause change: decoders change nothing that existed before the call, Analyse / PrepareForDisplay / String change only their own message, no function stores into the bytes of RawData), a second String call leaves the message exactly as it is, and two whole-program structural obligations exclude hidden state (no package variable written outside package initialisers, every one read is init-only) and nondeterminism sources (goroutines, select, map iteration, clock, random) in the cone; that equal inputs give equal results then follows because every function is a deterministic function of its arguments", "6 C15"),
+ "C15": ("determinism / no hidden state over the whole framing-decoding-display cone (59 functions under contract): every function's frame is proved (only the locations in its modifies clause change: decoders change nothing that existed before the call, Analyse / PrepareForDisplay / String change only their own message, no function stores into the bytes of RawData), a second String call leaves the message exactly as it is, and two whole-program structural obligations exclude hidden state (no package variable written outside package initialisers, every one read is init-only) and nondeterminism sources (goroutines, select, map iteration, clock, random) in the cone; that equal inputs give equal results then follows because every function is a deterministic function of its arguments; Message.Copy promises a fresh copy of the raw bytes; structural obligation idempotent-display (no display function stores into a Message field a value computed from that field's previous content)", "6 C15"),
  "C16": ("rtcmlogger: the copy loop is proved against a prophecy stdin and a ghost stdout log - at every iteration and at loop exit the bytes written equal the bytes consumed, and the blocks sent to the recorder tile the consumed input with private copies; the recorder is proved to write every received block, in order, one Write per block, so its log grows by the concatenation of the blocks; start is covered by the whole-program join obligation (it waits for the recorder's completion signal on every path to its return) and spawn-disjoint.  Assumes sinks accept every write completely; dailylogger is an io.Writer", "6 C16"),
  "C17": ("as C06 with the first observation allowed anywhere in the week of the start time: the relation additionally fixes the previous timestamps to zero before the first message, New establishes that, and the step is proved without the hypothesis that the first observation is not earlier than T", "6 C17"),
  "C07": ("no crash, no hang: zero-tolerance safety sweep over the whole cone of HandleMessages, GetMessage, Analyse, PrepareForDisplay and Message.String (45 functions under contract, everything else inlined): one obligation per index, slice, nil dereference, division, shift count, type assertion, map write, channel operation and precondition of the unchecked bit readers, plus a termination measure for every loop; display code is checked with exact wrap-around arithmetic; both log levels are covered because the level is a symbolic field", "6 C07"),
  "C08": ("ranges, phase ranges, rates: exact integer postconditions for the six GetAggregate* methods (invalid rough value gives 0, invalid fine value falls back to the rough value, otherwise whole x 2^29 + frac x 2^19 + fine with the MSM4 deltas scaled x32 / x4 through the same specification function, which is the MSM4 = MSM7 clause); floating-point postconditions for RangeInMetres, PhaseRange, PhaseRangeRate, PhaseRangeRateDoppler and GetSignalWavelength in the relative-rounding-error model (result within k x 2^-53 of the standard's formula); argument-flow obligations that \"invalid\" reaches the display", "6 C08"),
  "C09": ("reader-to-sinks pipeline: per-stage contracts over ghost channel histories - the reader stage forwards exactly the bytes it read, in order, and closes its channel on return; the framing stage (C02/C03 clauses) turns its byte feed into the segment sequence and closes its output once; the fan-out stage sends every received message, as a value and in order, to every non-nil consumer and closes nothing - plus preconditions checked at each go statement, transfer of close permission at spawn (a second close or a send after hand-over is reported by the close-once / send-closed obligations), termination measures of the framing and fan-out stages on their feeds, and the whole-program spawn-disjoint obligation (the spawner does not touch what it handed over).  Schedules, buffer capacities and timings are not enumerated: each stage is proved for every feed, and the lift to every schedule is Kahn determinism of single-reader/single-writer channel networks (assumption K)", "6 C09/C10"),
- "C13": ("transient end-of-file and timeouts: the reader stage is proved against a prophecy reader (any sequence of results: a byte, end of file, i/o timeout, other error, or nothing; any placement): the byte channel carries exactly the bytes read so far, each once and in order, at every loop iteration and at return; the channel is closed at return; the stage returns only with the error of its last read and every earlier error was a tolerated one.  The wall-clock condition (give up only after the tolerance has elapsed) is the code's own guard and is not restated as a contract", "6 C13"),
+ "C13": ("transient end-of-file and timeouts: the reader stage is proved against a prophecy reader (any sequence of results: a byte, end of file, i/o timeout, other error, or nothing; any placement): the byte channel carries exactly the bytes read so far, each once and in order, at every loop iteration and at return; the channel is closed at return; the stage returns only with the error of its last read and every earlier error was a tolerated one.  The wall-clock condition (give up only after the tolerance has elapsed) is the code's own guard and is not restated as a contract; the tolerance clause is decided over a ghost clock (the reader gives up on a tolerated error only after a silent run longer than the configured tolerance; the timer runs only during a silent run), and the framing stage's lossless-segmentation clauses give 'the data received so far is still delivered'", "6 C13"),
  "C10": ("rtcmfilter output: the writer stage is proved to make exactly one Write per typed message of its feed, in order, with that message's raw bytes, and none for non-RTCM messages (typedcnt counting function, per-call write offsets: the writer's log grows by the concatenation of the raw bytes of the typed messages); the readable-log stage makes one Write per message; composed with the C09 stage contracts (reader, framing with the C01/C02/C03 clauses, fan-out) through channel identity; the wiring function passes the fan-out stage's preconditions (distinct, open channels), closes every channel exactly once and waits for all writers (join obligation), for both switches symbolic", "6 C10"),
  "C11": ("output complete at return: whole-program join obligations on displayrtcm3.HandleMessages and rtcmfilter.HandleMessages (every goroutine they start signals completion - deferred close / WaitGroup.Done after its last effect - and the function waits for that signal on every path to its return), plus the display stage contract (one Write per message received until the channel closes) and the C10/C09 stage contracts; writer latency is irrelevant because no contract mentions time", "6 C11"),
  "C12": ("corrupted frame discarded alone: per-fetch postcondition SegCorrupt (cursor lands exactly behind the damaged frame) lifted by the HandleMessages invariant; neighbours are covered by the C03 clauses", "6 C12"),
 }
 
 NOTE = ("Assumes: the VC generator and SMT solvers; 64-bit int; assumed contracts for the standard library and dependencies listed in the evidence "
-        "(crc24q.Hash is an uninterpreted function of the hashed bytes, errors.New, fmt.Sprintf, package time); partial correctness (termination and panics are C07); "
+        "(crc24q.Hash is an uninterpreted function of the hashed bytes, errors.New, fmt.Sprintf, package time); safety obligations (no panic, no out-of-range access) of the library functions in a property's cone are part of that property's check, termination measures are decided under C07 and the time properties; "
         "channel semantics are modelled by ghost histories (feed/sent), so schedules and capacities are covered by the Kahn-determinism meta-argument, not enumerated.")
 
 not_applicable = {
